@@ -112,6 +112,31 @@ func buildImage(ref, class string, variant int) *PkgImage {
 			img.Files["components/"+c+"/manifest.yaml"] = []byte(manifestYAML(img.Name+"-"+c, false, "", false))
 			img.Files["components/"+c+"/cm.yaml.gotmpl"] = []byte(cmYAML(pn+"-"+c, "alpha", c, 0) + "---\n" + depYAML(pn+"-"+c+"-dep", "bravo"))
 		}
+	case "bad-condition-map":
+		img.Files["manifest.yaml"] = []byte(manifestYAML(img.Name, false, "", false))
+		img.Files["cm.yaml"] = []byte("apiVersion: v1\nkind: ConfigMap\nmetadata:\n  name: cm-map\n  namespace: ns1\n  annotations:\n    package-operator.run/phase: alpha\n    package-operator.run/condition-map: \"no arrow here\"\ndata:\n  k: v\n")
+	case "torn", "torn-late", "empty-image", "corrupt-header":
+		img.Files["manifest.yaml"] = []byte(manifestYAML(img.Name, false, "", false))
+		img.Files["cm.yaml"] = []byte(cmYAML("torn-cm", "alpha", "x", 2048))
+	case "garbage-yaml":
+		img.Files["manifest.yaml"] = []byte(manifestYAML(img.Name, false, "", false))
+		img.Files["a.yaml"] = []byte("\x00\x01\x02: [}{\n---\n- just\n- a list\n---\n42\n")
+		img.Files["b.yaml.gotmpl"] = []byte("{{ range .config }}{{ . }}{{ end }}{{ template \"nope\" }}")
+	case "no-kind":
+		img.Files["manifest.yaml"] = []byte(manifestYAML(img.Name, false, "", false))
+		img.Files["a.yaml"] = []byte("metadata:\n  name: nokind\n  annotations:\n    package-operator.run/phase: alpha\n---\napiVersion: v1\nkind: ConfigMap\nmetadata:\n  annotations:\n    package-operator.run/phase: alpha\n")
+	case "weird-annotations":
+		img.Files["manifest.yaml"] = []byte(manifestYAML(img.Name, false, "", false))
+		img.Files["a.yaml"] = []byte("apiVersion: v1\nkind: ConfigMap\nmetadata:\n  name: weird\n  namespace: ns1\n  annotations:\n    package-operator.run/phase: alpha\n    package-operator.run/condition-map: \"=>\\n => x\\nA => \"\n    package-operator.run/collision-protection: Bogus\n    package-operator.run/condition: \"1 +\"\n")
+	case "deep-template":
+		img.Files["manifest.yaml"] = []byte(manifestYAML(img.Name, false, "", false))
+		img.Files["a.yaml.gotmpl"] = []byte("{{ define \"r\" }}{{ template \"r\" . }}{{ end }}apiVersion: v1\nkind: ConfigMap\nmetadata:\n  name: deep\n  namespace: ns1\n  annotations:\n    package-operator.run/phase: alpha\ndata:\n  k: \"{{ template \"r\" . }}\"\n")
+	case "manifest-list":
+		img.Files["manifest.yaml"] = []byte("- a\n- b\n")
+		img.Files["manifest.yml"] = []byte(manifestYAML(img.Name, false, "", false))
+	case "non-string-annotation":
+		img.Files["manifest.yaml"] = []byte(manifestYAML(img.Name, false, "", false))
+		img.Files["a.yaml"] = []byte("apiVersion: v1\nkind: ConfigMap\nmetadata:\n  name: nsa\n  namespace: ns1\n  annotations:\n    package-operator.run/phase: [alpha]\n    other: 5\n  labels: notamap\n")
 	case "no-manifest":
 		img.Files["cm.yaml"] = []byte(cmYAML("orphan-cm", "alpha", "x", 0))
 	case "garbled-manifest":
@@ -132,6 +157,8 @@ func (img *PkgImage) Admissible(spec map[string]any, scopeCluster bool, others i
 	switch img.Class {
 	case "pull-fails":
 		return false, "pull"
+	case "bad-condition-map", "torn", "torn-late", "corrupt-header", "empty-image", "garbage-yaml", "no-kind", "weird-annotations", "deep-template", "manifest-list", "non-string-annotation":
+		return false, "hostile"
 	case "no-manifest", "garbled-manifest":
 		return false, "load"
 	case "bad-manifest":
@@ -226,11 +253,14 @@ type PKGGen struct {
 	OpenShift bool
 }
 
+var hostileClasses = []string{"bad-condition-map", "torn", "torn-late", "corrupt-header", "empty-image", "garbage-yaml", "no-kind", "weird-annotations", "deep-template", "manifest-list", "non-string-annotation"}
+
 var imageClasses = []string{"valid", "valid", "needs-config", "multi", "no-manifest", "garbled-manifest", "bad-manifest", "bad-object", "constraint-openshift", "constraint-version", "pull-fails", "big"}
 
 // GenPKG generates (Cluster)Packages, the images behind them and spec edits.
 func GenPKG(w *World, maxEdits int, opts ...string) *Scenario {
 	noErrorLoops := len(opts) > 0 && opts[0] == "no-error-loops"
+	hostile := len(opts) > 0 && opts[0] == "hostile"
 	s := w.Scn
 	sc := &Scenario{Family: "S-PKG", Facts: map[string]any{}}
 	reg := &Registry{w: w, Images: map[string]*PkgImage{}}
@@ -254,6 +284,9 @@ func GenPKG(w *World, maxEdits int, opts ...string) *Scenario {
 	for i := 0; i < nImg; i++ {
 		ref := fmt.Sprintf("img-%d", i)
 		class := imageClasses[s.Intn(len(imageClasses), "image-class")]
+		if hostile && s.Chance(2, 3, "hostile-class") {
+			class = hostileClasses[s.Intn(len(hostileClasses), "hostile-class-idx")]
+		}
 		if i == 0 {
 			class = "valid"
 		}
